@@ -93,7 +93,7 @@ static void check_leaf_chain(unsigned i, const struct c16_val *root) {
 			level = level + corr + 1;
 			CHECK(level <= 255, "C16.H1 chain level stays within 0..255");
 			CHECK((link->imprint != NULL) != (link->metaData != NULL) && link->legacyId == NULL, "C16.H1 link has exactly one sibling: imprint or metadata");
-			sib.used = 1; sib.level = 0;
+			sib.level = 0;
 			if (link->imprint != NULL) {
 				const unsigned char *imp = NULL; size_t il = 0;
 				KSI_DataHash_getImprint(link->imprint, &imp, &il);
@@ -137,8 +137,8 @@ void harness(void) {
 #endif
 	b->maxTreeLevel = maxl;     /* public struct member: this is how the limit is configured (tree_builder.h) */
 
-	struct c16_forest F;
-	c16_forest_init(&F);
+	struct c16_lf F;             /* reference forest, levels only */
+	c16_lf_init(&F);
 	unsigned nacc = 0;           /* concrete */
 	unsigned nmd = 0;
 
@@ -147,7 +147,7 @@ void harness(void) {
 		struct c16_val v; KSI_DataHash *hsh = NULL; KSI_MetaData *md = NULL;
 		int level = ND(int, level); ASSUME(level >= 0 && level <= 255);
 		unsigned kind = (unsigned)kinds[i];
-		v.used = 1; v.level = (unsigned)level;
+		v.level = (unsigned)level;
 		for (unsigned k = 0; k < C16_VMAX; k++) v.b[k] = 0;
 		if (kind == 0) {
 			u8 d[20]; for (unsigned k = 0; k < 20; k++) { d[k] = ND(u8, leaf); v.b[1 + k] = d[k]; }
@@ -159,10 +159,11 @@ void harness(void) {
 			md = c16_md_make(ctx, nmd++, p);
 		}
 		/* ---- reference verdict ---- */
-		int limit_ok = (maxl <= 0) || (c16_level_if_added(&F, ALG, (unsigned)level) <= (unsigned)maxl);
-		struct c16_forest G = F;
-		unsigned carry_hi = c16_forest_add(&G, ALG, &v, 0);
-		int ref_accept = limit_ok && carry_hi <= 255;
+		struct c16_lf G = F;
+		unsigned carry_hi = c16_lf_add(&G, (unsigned)level);      /* highest level among the carry joins */
+		unsigned root_if = c16_lf_close(&G);                      /* root level if the tree were closed after this leaf */
+		int limit_ok = (maxl <= 0) | (root_if <= (unsigned)maxl);
+		int ref_accept = limit_ok & (carry_hi <= 255);
 		const int must_refuse = ((int)i == REFUSE);
 		if (must_refuse) ASSUME(!ref_accept); else ASSUME(ref_accept);
 
@@ -175,25 +176,24 @@ void harness(void) {
 		if (must_refuse) {
 			CHECK(res != KSI_OK, "C16.H2 a leaf beyond the maximum level or beyond level 255 is refused");
 			CHECK(h == NULL, "C16.H2 no handle is returned for a refused leaf");
-#if MAXMODE != 1
+#if REFUSE >= 0 && MAXMODE != 1
 			if (!limit_ok) WITNESS_POINT("leaf refused because of maxTreeLevel");
 #endif
-#if (REFUSE % 2) == 1 && MAXMODE != 2
+#if REFUSE >= 0 && (REFUSE % 2) == 1 && MAXMODE != 2
 			if (limit_ok && level < 255) WITNESS_POINT("leaf refused because a carry join would exceed level 255");
 #endif
 		} else {
 			CHECK(res == KSI_OK, "C16.H1 an acceptable leaf is accepted");
 			CHECK(h != NULL, "C16.H1 a handle is returned for an accepted leaf");
 			if (res != KSI_OK || h == NULL) return;
-			F = G;                                  /* levels only: hashes are looked up after close */
+			F = G;
 			leafv[nacc] = v; leafkind[nacc] = (int)kind; handle[nacc] = h; nacc++;
 		}
 	}
 
 	/* ---- close ---- */
-	struct c16_val lroot;
-	(void)c16_forest_close(&F, ALG, &lroot, 0);
-	if (lroot.level > 255) {
+	unsigned lroot = c16_lf_close(&F);
+	if (lroot > 255) {
 		/* possible only without a limit: the last joins leave 0..255 */
 		res = KSI_TreeBuilder_close(b);
 		CHECK(res != KSI_OK, "C16.H1 close fails when the root level would leave 0..255");
@@ -211,8 +211,8 @@ void harness(void) {
 	/* ---- reference tree with hashes (now that every message is on record) ---- */
 	struct c16_forest R; struct c16_val root;
 	c16_forest_init(&R);
-	for (unsigned i = 0; i < NLEAVES; i++) (void)c16_forest_add(&R, ALG, &leafv[i], 1);
-	(void)c16_forest_close(&R, ALG, &root, 1);
+	for (unsigned i = 0; i < NLEAVES; i++) c16_forest_add(&R, ALG, &leafv[i]);
+	(void)c16_forest_close(&R, ALG, &root);
 	CHECK(c16_H_missing == 0, "C16.H1 the builder hashed every join of the reference merge (left||right||level)");
 
 	CHECK(b->rootNode != NULL, "C16.H1 closed builder has a root node");
